@@ -18,7 +18,7 @@ theorem rejects_krylov (s : Sp K) (m : Method) (b x0 : Array K) (maxIter : Nat) 
     ∃ e, solveIter s m b x0 maxIter tol norm2 = .error e := by
   cases hr : solveIter s m b x0 maxIter tol norm2 with
   | error e => exact ⟨e, rfl⟩
-  | ok out => exact absurd ((Ohsl.Props.C08.solveIter_ok_iff s m b x0 maxIter tol norm2).1 ⟨out, hr⟩) h
+  | ok out => exact absurd ((Ohsl.Props.C08.solveIter_ok_iff s m b x0 maxIter tol norm2).1 ⟨out, hr⟩).1 h
 
 /-- the class of the error: `size` for the three shape guards -/
 theorem rejects_krylov_size (s : Sp K) (m : Method) (b x0 : Array K) (maxIter : Nat) (tol : K)
